@@ -819,12 +819,16 @@ func (r *rewriter) isExternalBlocking(ce *ast.CallExpr) bool {
 var sqlRecv = map[string]bool{
 	"*database/sql.DB": true,
 	"*database/sql.Tx": true,
+	"*database/sql.Rows": true,
+	"*database/sql.Row": true,
 	"github.com/samsarahq/thunder/sqlgen.QueryExecer": true,
 }
 
 var sqlNames = map[string]bool{
 	"QueryContext": true, "ExecContext": true, "QueryRowContext": true, "BeginTx": true, "PrepareContext": true,
 	"Query": true, "Exec": true, "QueryRow": true, "Begin": true, "Commit": true, "Rollback": true,
+	// fetching and decoding a row: the driver may wait for the network
+	"Next": true, "Scan": true,
 }
 
 // A scheduling point before every statement sent to the database:
@@ -857,6 +861,10 @@ func (r *rewriter) sqlPoint(ce *ast.CallExpr) {
 		sel.X = call(rt("IODB"), sel.X)
 	case "*database/sql.Tx":
 		sel.X = call(rt("IOTx"), sel.X)
+	case "*database/sql.Rows":
+		sel.X = call(rt("IORows"), sel.X)
+	case "*database/sql.Row":
+		sel.X = call(rt("IORow"), sel.X)
 	default:
 		r.fail(ce.Pos(), "database/sql call %s on %s is not instrumented", name, recv)
 		return
@@ -1038,7 +1046,7 @@ func (r *rewriter) mapProbes(s ast.Stmt) []ast.Stmt {
 	switch n := s.(type) {
 	case *ast.AssignStmt:
 		if up := r.updateProbe(n); up != nil {
-			return []ast.Stmt{up}
+			return up
 		}
 		if !r.plainExpr(n) {
 			r.skippedProbe(n)
@@ -1183,7 +1191,7 @@ func (r *rewriter) varProbe(x ast.Expr) ast.Stmt {
 }
 
 // updateProbe recognises x op= y and x = append(x, ...) with plain operands.
-func (r *rewriter) updateProbe(n *ast.AssignStmt) ast.Stmt {
+func (r *rewriter) updateProbe(n *ast.AssignStmt) []ast.Stmt {
 	if len(n.Lhs) != 1 || len(n.Rhs) != 1 {
 		return nil
 	}
@@ -1201,13 +1209,51 @@ func (r *rewriter) updateProbe(n *ast.AssignStmt) ast.Stmt {
 		if b, isB := r.info.Uses[id].(*types.Builtin); !isB || b.Name() != "append" {
 			return nil
 		}
-		if r.exprText(ce.Args[0]) != r.exprText(x) {
+		if r.exprText(ce.Args[0]) != r.exprText(x) || !r.plainExpr(x) {
 			return nil
 		}
+		allPlain := true
 		for _, a := range ce.Args[1:] {
 			if !r.plainExpr(a) {
+				allPlain = false
+			}
+		}
+		if !allPlain {
+			for _, a := range ce.Args[1:] {
+				bad := false
+				ast.Inspect(a, func(n ast.Node) bool {
+					switch u := n.(type) {
+					case *ast.UnaryExpr:
+						if u.Op == token.ARROW {
+							bad = true
+						}
+					case *ast.FuncLit:
+						bad = true
+					}
+					return !bad
+				})
+				if bad {
+					return nil
+				}
+			}
+			// x = append(x, f(y)) => _a := f(y); probe; x = append(x, _a): the
+			// calls run first (as they may anyway: the order between a call and
+			// the read of a variable in one expression is not specified), then
+			// nothing but the update follows the probe
+			probe := r.varProbe(x)
+			if probe == nil {
 				return nil
 			}
+			var pre []ast.Stmt
+			for i, a := range ce.Args[1:] {
+				if r.isConst(a) {
+					continue
+				}
+				t := r.tmp("a")
+				pre = append(pre, &ast.AssignStmt{Lhs: []ast.Expr{t}, Tok: token.DEFINE, Rhs: []ast.Expr{a}})
+				ce.Args[i+1] = t
+			}
+			return append(pre, probe)
 		}
 	case token.DEFINE:
 		return nil
@@ -1217,5 +1263,8 @@ func (r *rewriter) updateProbe(n *ast.AssignStmt) ast.Stmt {
 			return nil
 		}
 	}
-	return r.varProbe(x)
+	if p := r.varProbe(x); p != nil {
+		return []ast.Stmt{p}
+	}
+	return nil
 }
